@@ -145,7 +145,9 @@ var scenarios = []schedrig.Scenario{
 		schedrig.TypeBytes(w, "paste", "\x1b[200~ab\x1b[201~")
 		schedrig.TypeBytes(w, "mouse", "\x1b[<0;3;2M\x1b[<0;3;2m")
 		schedrig.TypeBytes(w, "focus", "\x1b[O")
-		w.Until(func() bool { return w.Seen("paste-end") && w.Seen("focus-out") && strings.Count(strings.Join(w.Got, " "), "mouse:") == 2 })
+		w.Until(func() bool {
+			return w.Seen("paste-end") && w.Seen("focus-out") && strings.Count(strings.Join(w.Got, " "), "mouse:") == 2
+		})
 		// the paste arrives as start, the two keys, end, in this order
 		idx := func(s string) int { return schedrig.IndexOf(w.Got, s) }
 		if !(idx("paste-start") < idx("key:a") && idx("key:a") < idx("key:b") && idx("key:b") < idx("paste-end")) {
